@@ -365,6 +365,10 @@ func redisBulk(r *ev.Run, kind storeKind, ks ksrig.FullKeyStore) {
 	store := kind.name()
 	violation := func(sig string, d map[string]interface{}) {
 		d["scenario"], d["store"], d["replay"] = "redis bulk maintenance", store, fmt.Sprintf("VERIF_SEED=%d ./check C10 %s", r.Seed, r.Tier)
+		if e, ok := d["error"].(string); ok && strings.Contains(e, "i/o timeout") { // go-redis' 3 s wall-clock read timeout under load: a resource verdict
+			r.Inconclusive("redis bulk: go-redis client-side i/o timeout (wall clock) - " + sig)
+			return
+		}
 		r.Violation("redis "+sig, d)
 	}
 	g, err := newRig(kind, ks, true)
